@@ -164,6 +164,25 @@ def run_state(desc):
     if abs(total - hull.volume) > 1e-9 * hull.volume:
         viol.append(_viol(ent, "volumes_do_not_sum_to_hull_volume", {"params": p, "sum": total, "hull": float(hull.volume),
                                                                     "relative": (total - hull.volume) / hull.volume}))
+    # conforming tiling: every triangular face belongs to exactly two tetrahedra, or to exactly one and then lies on the boundary of
+    # the hull (overlapping tetrahedra whose volumes happen to add up leave interior faces with a single owner)
+    faces = {}
+    for tet in t.tolist():
+        for tri in itertools.combinations(tet, 3):
+            k = tuple(sorted(tri))
+            faces[k] = faces.get(k, 0) + 1
+    eq = hull.equations
+    bad_multi = [k for k, c in faces.items() if c > 2]
+    bad_single = []
+    for k, c in faces.items():
+        if c == 1:
+            cen = v[list(k)].mean(axis=0)
+            if float(np.max(eq[:, :3] @ cen + eq[:, 3])) < -1e-7 * size:
+                bad_single.append(k)
+    if bad_multi:
+        viol.append(_viol(ent, "face_shared_by_more_than_two_tetrahedra", {"params": p, "face": bad_multi[0], "count": faces[bad_multi[0]]}))
+    if bad_single:
+        viol.append(_viol(ent, "interior_face_with_a_single_tetrahedron", {"params": p, "face": bad_single[0], "n_faces": len(bad_single)}))
     # vertices on or inside the analytic shape; potentials
     tol = 1e-9 * size
     for i, x in enumerate(v):
